@@ -434,6 +434,16 @@ impl Family for LanczosFamily {
                 rep.trivial_runs += 1;
             }
             rep.stat("vectors_checked", nvec as u64);
+            if !out.sim.rng_cut && out.vectors.is_some() && spec.cols.len() > spec.rows {
+                // more columns than rows: the kernel is certainly non-trivial
+                rep.stat("runs_on_matrices_with_more_columns_than_rows", 1);
+                if nvec == 0 {
+                    rep.stat("of_which_lanczos_returned_no_vector", 1);
+                    if !biased {
+                        rep.stat("of_which_lanczos_returned_no_vector_with_a_fair_stream", 1);
+                    }
+                }
+            }
             rep.stat("rng_words_drawn", out.sim.rng_draws);
             let attempts = out.sim.rng_draws / ny.max(1);
             if attempts > 1 {
